@@ -87,10 +87,22 @@ inline Case gen_op(Rng& r, int op, const GenLimits& lim) {
   // corners, self-overlap) - the inputs on which the sweep's horizontal joins, split lists and owner search do real work
   gen::RectScene rs; bool lattice = false;
   if (boolean && !isD && (lim.force_lattice || (R >= 64 && r.chance(0.25)))) {
-    rs = gen::rectilinear_scene(r, 8, 2); lattice = true;
-    const int64_t sc = (int64_t)1 << r.irange(0, 5);
-    gen::scale_paths(rs.subj, sc, 0, 0); gen::scale_paths(rs.clip, sc, 0, 0);
-    R = 8 * sc * 7;    // everything else of this case (open paths, rectangle) lives on the same scale
+    lattice = true;
+    if (r.chance(0.4)) {
+      // dense lattice soup: 5-16 polygons of 3-30 vertices each on a coarse G x G lattice (pitch 1..40): many mutually
+      // overlapping, vertex-touching polygons whose solution pieces carry split lists and long owner chains
+      const int G = r.irange(4, 12); const int64_t pitch = r.chance(0.3) ? r.irange(1, 3) : r.irange(14, 40);
+      const int np = r.irange(5, 16); rs.G = G; rs.s = pitch; rs.ox = rs.oy = 0;
+      for (int k = 0; k < np; ++k) { Path64 p; int nv = r.chance(0.6) ? r.irange(3, 8) : r.irange(9, 30);
+        for (int q = 0; q < nv; ++q) p.emplace_back((int64_t)r.irange(0, G) * pitch, (int64_t)r.irange(0, G) * pitch);
+        (k < np - 2 && r.chance(0.7) ? rs.subj : rs.clip).push_back(p); }
+      R = (int64_t)G * pitch;
+    } else {
+      rs = gen::rectilinear_scene(r, 8, 2);
+      const int64_t sc = (int64_t)1 << r.irange(0, 5);
+      gen::scale_paths(rs.subj, sc, 0, 0); gen::scale_paths(rs.clip, sc, 0, 0);
+      R = 8 * sc * 7;    // everything else of this case (open paths, rectangle) lives on the same scale
+    }
   }
   c.seti("R", R); c.seti("prec", prec);
   c.seti("ct", r.irange(0, 4)); c.seti("fr", r.irange(0, 3)); c.seti("pc", r.coin()); c.seti("rev", r.coin());
